@@ -2,7 +2,7 @@
 import json, os
 
 from . import extract
-from .rules import lock7, seq, mutex, ptr, lockword, qsbr, enc, exc, acc, cfgdiff
+from .rules import lock7, seq, mutex, ptr, lockword, qsbr, enc, exc, acc, cfgdiff, enum1, iterrules, prefix, point, find
 from . import olcrules
 
 VERIF = os.path.dirname(os.path.dirname(os.path.abspath(__file__)))
@@ -41,18 +41,38 @@ def R(fn, **kw):
 
 PROPERTIES = {}
 
+PROPERTIES['C01'] = {
+    'level': 'other',
+    'configs': two,
+    'rules': [R(point.noeff1), R(point.keyeq1), R(point.leaf1), R(point.leaf2), R(point.leaf3), R(point.root1), R(point.split1), R(find.find1), R(find.ord1), R(prefix.pfx1), R(prefix.pfx2),
+              R(iterrules.sib1_point), R(acc.acc1), R(acc.acc4), R(lambda cfg: olcrules.lock6(cfg))],
+    'technique': 'static analysis: path-sensitive effect flow with callee summaries (result/effect correlation), control-dependence rules (full-key comparison guards), writer/reader expression agreement, abstract interpretation of the node search and key-prefix arithmetic in byte-vector / lane-wise three-valued domains with exhaustively enumerated lengths and counts, sibling differencing db vs olc_db',
+    'explanation': 'The local generators of "point operations behave as a map", decided on the clang-instantiated code of all three index classes and both key kinds; the behaviour over all histories is NOT decided (see does_not_decide). '
+                   'NOEFF-1 on every path insert / remove return false (or request a restart) only if nothing was stored into the tree and return true only if something was; get / empty never store. '
+                   'KEYEQ-1 every "key present" decision (value returned by get, duplicate rejected by insert, leaf unlinked by remove and by the remove helpers of every node class) is control-dependent on a full comparison of the reached leaf\'s key with the operation\'s own key. '
+                   'LEAF-1 the leaf constructor copies key and value to exactly the ranges the getters read, sized from its arguments, and the allocation is sized from the same numbers; LEAF-2 leaves are immutable after construction (const fields, const methods, no write through `data` elsewhere); LEAF-3 no cast drops const from byte / leaf pointers (positive control in the analysis unit) - so an existing entry and any value view onto it cannot change while the leaf exists; '
+                   'LOCK-6 leaves of the OLC index are freed only through QSBR (view valid until the next quiescent state). ROOT-1 / ACC-4 empty() is "root is null", clear() deletes the subtree and nulls the root. '
+                   'FIND-1 find_child of each node class returns exactly the child stored for the key byte: I4 / I16 by lane-wise three-valued evaluation of the SSE search with child count and match position enumerated and stale slots free, I48 / I256 by term comparison; ORD-1 the dense classes insert at the rank of the new key byte (sortedness preserved). '
+                   'SPLIT-1 node splits dispatch on the bytes at the split position (leaf split: k1[depth+L] / shifted_k2[L]; prefix split: prefix[len] read before the cut by len+1, key[depth+len]); CAP-1 / CAP-2 the interval obligations "longest common prefix of two distinct keys <= key_prefix_capacity" at the leaf split and "merged prefix <= capacity" at the collapse hold for 64-bit keys and FAIL for byte-string keys - two genuine defects of the pinned tree, listed in known_findings.json and printed as KNOWN-FINDING (replays triage/d1_long_prefix.cpp, triage/d1b_collapse_overflow.cpp). '
+                   'PFX-1 key_prefix::cut / prepend are the specified byte permutations for every combination of lengths and every content of the stale bytes; PFX-2 shared_len is min(first differing byte, clamp). '
+                   'SIB-1p db and olc_db take the same algorithmic decisions on every path of get / insert / remove and of the add / remove helpers of every node class; ACC-1 grow / shrink / collapse thresholds and target classes.',
+    'decides': 'result/effect correlation; full-key-comparison guards; leaf layout agreement and immutability; per-node lookup and insert position; key-prefix arithmetic; db/olc_db algorithm agreement; size-class transitions',
+    'does_not_decide': 'the map behaviour as a theorem over all operation histories and key sets (that needs an inductive tree invariant - functional verification, outside static analysis); the copy loops of the grow/shrink constructors beyond ACC-1/ACC-2',
+}
 PROPERTIES['C02'] = {
     'level': 'other',
     'configs': two,
-    'rules': [R(seq.cmp1), R(seq.iter1)],
+    'rules': [R(seq.cmp1), R(seq.iter1), R(enum1.enum1), R(iterrules.iter2), R(iterrules.iter3), R(iterrules.sib1)],
+    'technique': 'static analysis: forward dataflow over event-CFGs (comparator operands, sibling-step consistency), scan-descriptor extraction per node-class enumeration method compared with a semantics table, path-class differencing of sibling implementations (forward/backward, db/olc_db)',
     'explanation': 'Static necessary conditions of "scans visit exactly the interval, in order", decided on the clang-instantiated code of db, mutex_db and olc_db for both key kinds: '
-                   'CMP-1 (every byte comparator is applied to key bytes, never to the object representation of a pointer-carrying object, so the outcome cannot depend on buffer addresses) and '
-                   'ITER-1 (when an iterator function computes a sibling with next/prior/gte_key_byte/lte_key_byte and the answer holds a value, the child it descends into is the one the answer names). '
-                   'Each is checked on every CFG path of every instantiation by forward dataflow over the exported event-CFG.',
-    'decides': 'address independence of comparisons; sibling-step consistency in seek/next/prior and their OLC counterparts',
-    'does_not_decide': 'completeness of seek\'s case analysis for every tree shape and bound; delivered key lists as values',
+                   'CMP-1 every byte comparator is applied to key bytes, never to the object representation of a pointer-carrying object; '
+                   'ITER-1 when an iterator function computes a sibling with next/prior/gte_key_byte/lte_key_byte and the answer holds a value, the child it descends into is the one the answer names; '
+                   'ENUM-1 each of the 96 per-node enumeration methods (begin/last/next/prior/gte_key_byte/lte_key_byte x 4 node classes x instantiations) is summarised by a scan descriptor (start, direction, bound, predicate, returned slot) and compared with the ART semantics table; '
+                   'ITER-2 the scan drivers stop at the bound with the documented inclusivity (from inclusive, to exclusive) in both directions and call the visitor only on valid positions, halting when it asks; '
+                   'ITER-3 the forward and the backward member of every iterator function pair are mirror images (next<->prior, begin<->last, gte<->lte, < <-> >), SIB-1 the db and olc_db iterators make the same algorithmic decisions once lock events are projected away.',
+    'decides': 'address independence of comparisons; sibling-step consistency; per-node ordered enumeration; bound handling of the scan drivers; forward/backward and db/olc agreement',
+    'does_not_decide': 'completeness of seek\'s case analysis for every tree shape and bound as a theorem; delivered key lists as values',
 }
-
 
 
 def olc(which):
@@ -66,20 +86,22 @@ def lock7a(cfg):
 PROPERTIES['C03'] = {
     'level': 'other',
     'configs': two,
-    'rules': [olc('LOCK-1'), olc('LOCK-2'), olc('LOCK-3'), olc('LOCK-5'), olc('ROLE')],
+    'rules': [olc('LOCK-1'), olc('LOCK-2'), olc('LOCK-3'), olc('LOCK-5'), olc('LOCK-9'), olc('ROLE'), R(iterrules.sib1_point)],
+    'technique': 'static analysis: relational path-sensitive typestate dataflow (bounded sets of worlds of must/may atoms) over event-CFGs with per-return callee summaries and index-sensitive write-effect summaries; sibling differencing db vs olc_db',
     'explanation': 'Protocol conformance of the optimistic-lock-coupling code, decided by a relational, path-sensitive dataflow (bounded sets of worlds of must/may atoms over the variables of each function, '
                    'per-return summaries through the dispatcher/shim forwarders, effect summaries for protected-field writes) over every OLC function that owns or receives read sections or write guards, both key kinds: '
                    'LOCK-1 no node pointer read under a read section is dereferenced, and no non-restart result returned, before that section is re-validated; '
                    'LOCK-2 every store to a protected field (direct or through callees, index-sensitive for children) happens under an active write guard on the written node, or the node is fresh / obsoleted by this operation; '
-                   'LOCK-3 guards are taken root-to-leaf and nothing waits while a guard is held; LOCK-5 nodes are obsoleted before they are retired; ROLE helper call sites pass matching section/node pairs. '
+                   'LOCK-3 guards are taken root-to-leaf and nothing waits while a guard is held; LOCK-5 nodes are obsoleted before they are retired; LOCK-9 lock coupling: the section on a child is opened while the section it was reached under is still open; ROLE helper call sites pass matching section/node pairs; SIB-1p once lock events are projected away the OLC point operations are the sequential algorithm. '
                    'Each rule is a necessary condition of linearizability: its breach yields a concrete torn read / lost update under some schedule.',
-    'decides': 'OLC protocol conformance (LOCK-1,2,3,5, ROLE) on every CFG path of every instantiation',
+    'decides': 'OLC protocol conformance (LOCK-1,2,3,5,9, ROLE) on every CFG path of every instantiation; algorithmic agreement with the sequential index',
     'does_not_decide': 'linearizability of histories as such; value-level correctness of the tree algorithms',
 }
 PROPERTIES['C04'] = {
     'level': 'other',
     'configs': two,
     'rules': [olc('LOCK-1'), olc('LOCK-5'), R(olcrules.lock6), R(acc.own1)],
+    'technique': 'static analysis: relational typestate dataflow (validate-before-dereference, obsolete-before-retire), who-may-construct rule for immediate-deleter owners, ownership linearity dataflow for released node pointers',
     'explanation': 'Structural safety conditions of "no use of reclaimed memory": LOCK-1 (no pointer obtained from a node is followed before the read section on that node is re-validated, so a stale pointer to a retired node is never dereferenced) '
                    'and LOCK-5 (every node an OLC operation hands to reclamation was unlocked-and-obsoleted by it first, so readers still holding a section on it restart; checked at restart returns too - a node retired and then abandoned by a restart is still linked), on every path of every OLC function, both key kinds; '
                    'LOCK-6 (in the OLC instantiation an existing node is never wrapped in an owner with the immediate deleter outside the single-threaded teardown: ever-reachable nodes are freed only through QSBR); OWN-1 (a node released from its unique_ptr is published or re-owned on every path: no node is lost without being freed).',
@@ -89,9 +111,11 @@ PROPERTIES['C04'] = {
 PROPERTIES['C09'] = {
     'level': 'other',
     'configs': two,
-    'rules': [olc('LOCK-1'), olc('LOCK-7'), olc('LOCK-8'), R(seq.iter1)],
+    'rules': [olc('LOCK-1'), olc('LOCK-7'), olc('LOCK-8'), olc('LOCK-9'), R(seq.iter1), R(iterrules.reseek), R(iterrules.iter3), R(iterrules.sib1)],
+    'technique': 'static analysis: relational typestate dataflow over the OLC iterator functions (section validation, stack-entry/version pairing, lock coupling), must-pass-through rule for the re-seek path, path-class differencing of sibling implementations',
     'explanation': 'Structural conditions of concurrent-scan correctness on the OLC iterator functions: LOCK-1 (snapshots validated before use / before a non-restart return), LOCK-7b (no validation on an ended, empty or moved-from section), '
-                   'LOCK-8 (every stack entry is pushed with the version of the read section opened on the node it describes, so a later rehydrate/check validates the right lock word), ITER-1 (the sibling computed is the sibling visited, also on the re-seek path).',
+                   'LOCK-8 (every stack entry is pushed with the version of the read section opened on the node it describes, so a later rehydrate/check validates the right lock word), LOCK-9 (hand-over-hand: the child section is opened before the parent section is given up), ITER-1 (the sibling computed is the sibling visited, also on the re-seek path), '
+                   'RESEEK-1 (when a step finds its stack invalidated it re-seeks to the key it stood on, captured before anything is unwound, in the direction of the step, and steps past it exactly when the re-seek found that key again), ITER-3 / SIB-1 (forward and backward members mirror each other; the OLC iterator is the db iterator plus lock events).',
     'decides': 'snapshot validation, stack-entry/version pairing and sibling-step consistency in try_first/last/next/prior/seek and the traversals',
     'does_not_decide': 'ordering / completeness of delivered keys under interleavings',
 }
@@ -99,6 +123,7 @@ PROPERTIES['C14'] = {
     'level': 'other',
     'configs': two,
     'rules': [olc('LOCK-3'), olc('LOCK-4'), olc('LOCK-7')],
+    'technique': 'static analysis: relational typestate dataflow for lock order / no-wait-while-locked / guard typestate on every CFG path incl. exceptional exits of scope guards',
     'explanation': 'No-deadlock / no-lock-left-held conditions: LOCK-3 (write ownership is only taken by non-blocking upgrade in root-to-leaf order and no waiting primitive - try_read_lock spin, spin_wait_loop_body - is reached while a guard is active, '
                    'so no wait-for cycle can contain a writer and readers hold nothing), LOCK-4 (no operation on a guard that is not active: no double unlock / null dereference; guards are scope-bound RAII objects), LOCK-7b (sections are not validated after they ended).',
     'decides': 'lock acquisition order, no-wait-while-locked, guard typestate',
@@ -108,6 +133,7 @@ PROPERTIES['C16'] = {
     'level': 'other',
     'configs': two,
     'rules': [R(lock7a), R(ptr.ptr4)],
+    'technique': 'static analysis: configuration differencing (statement-signature alignment of every function across single-axis flips of the build configuration with an effect classifier), API-surface differencing, typestate dataflow for read-section overwrite',
     'multi_rules': [R(cfgdiff.run_matrix)],
     'exhaustive': lambda tier: tier == 'thorough',
     'explanation': 'CD-1: for every single-axis flip of the build configuration (statistics on/off, assertions on/off, spin variant; quick: the baseline against its flips, thorough: all 16 configurations against theirs, exhaustively) the statement signatures of every function instantiated in both configurations are aligned in source order; every statement that exists on one side only must be part of a side-effect-free assertion, '
@@ -122,6 +148,7 @@ PROPERTIES['C07'] = {
     'level': 'proof',
     'configs': two,
     'rules': [R(lockword.lw)],
+    'technique': 'static analysis discharging the premises of a written proof: who-may-write rule on the lock word, expression evaluation over the finite quotient of word values, path-condition judgement by admitted word classes, memory-order table check',
     'explanation': 'The optimistic lock is one atomic word; mutual exclusion of write guards, snapshot consistency of validated read sections, upgrade-iff-unchanged and finality of the obsolete state follow from five premises by a short written argument '
                    '(DESIGN.md, C07: free words strictly increase by 4, the write bit is set between a successful upgrade and the unlock, the obsolete word is odd and terminal; Boehm\'s seqlock argument for the orders). This check discharges the premises on the source: '
                    'LW-1 the word is written only by {CAS w -> w.set_locked_bit(), store old+2, store obsolete constant}, reachable only through write_guard, which deactivates itself; LW-2 value facts of is_free / is_write_locked / is_obsolete / set_locked_bit by evaluating the expression trees over the finite quotient (v mod 4, v = obsolete word); '
@@ -135,6 +162,7 @@ PROPERTIES['C13'] = {
     'level': 'proof',
     'configs': lambda tier: [B, D] if tier == 'quick' else [B, D, extract.flip(B, 'nostats'), extract.flip(D, 'nostats')],
     'rules': [R(mutex.mx1), R(mutex.mx2)],
+    'technique': 'static analysis: forward dataflow (named owning guard alive at every access to the wrapped index), path-sensitive rule for the lock handed out with a hit',
     'explanation': 'MX-1: by forward dataflow over every member function of both mutex_db instantiations (scan member templates and statistics getters included), every access to the wrapped db happens while a NAMED std::lock_guard/std::unique_lock constructed on the one `mutex` member is alive and owning '
                    '(an unnamed temporary lock dies at the end of its statement and does not count; unlock() ends ownership). Hence every operation runs inside one critical section of one mutex: operations are totally ordered by lock acquisition and each behaves as the sequential db, i.e. linearizable. '
                    'MX-2: path-sensitively on the has-value test of the lookup result, get_internal returns std::move(guard) (still owning) exactly on has-value paths and an empty lock exactly on no-value paths; no other member returns a lock type.',
@@ -146,6 +174,7 @@ PROPERTIES['C17'] = {
     'level': 'proof',
     'configs': lambda tier: [B, D] if tier == 'quick' else [B, D, extract.flip(B, 'nostats'), extract.flip(D, 'nostats')],
     'rules': [R(ptr.ptr1), R(ptr.ptr2), R(ptr.ptr3), R(ptr.ptr4)],
+    'technique': 'static analysis: operator-shape comparison against a specification table, pairing/ordering dataflow (unregister-before / register-after every address change), dominance rule for the rejection assertions',
     'explanation': 'PTR-1: each operator of qsbr_ptr has, structurally, the shape of the same raw-pointer operator (or the listed delegation: postfix -> prefix, +/- -> +=/-=, n+p -> p+n), checked operator by operator against a specification table. '
                    'PTR-2 (assertion-enabled configurations): every member function that changes the wrapped address unregisters the old value before and registers the new value after on every path, transfers (std::exchange) move the registration, constructors register once, the destructor unregisters once, '
                    'the null filter forwards exactly the non-null pointers, and the per-thread registry inserts once and erases exactly ONE element (erase by iterator) - so after every member function the registry equals the multiset of live non-null wrapper values; NDEBUG configurations contain no tracking. '
@@ -164,6 +193,7 @@ PROPERTIES['C05'] = {
     'level': 'other',
     'configs': stats_axis,
     'rules': [R(qsbr.q_free_paths), R(qsbr.q_rotation), R(qsbr.q_barriers), R(lambda cfg: qsbr.q_orphans(cfg, parts=('9',)))],
+    'technique': 'static analysis: call-graph who-may-call rules for the free sink, ordering/dominance and control-dependence rules on the rotation, path-sensitive boolean dataflow for barriers and once-only orphan handling, memory-order table',
     'explanation': 'Structural safety conditions of "QSBR never frees what a registered thread may still reference", each decided on every CFG path of qsbr.hpp/qsbr.cpp (stats on/off, debug/release): '
                    'Q-1 requests reach qsbr::deallocate only through ~deferred_requests, or at once only under single-thread mode; Q-2 only the previous-interval list (and, under single-thread mode, the current one; orphans likewise) is handed to the free sink; '
                    'Q-3 in the rotation the previous list is moved out before it receives the current list; Q-4 every rotation is control-dependent on an observed epoch change; '
@@ -176,6 +206,7 @@ PROPERTIES['C06'] = {
     'level': 'other',
     'configs': stats_axis,
     'rules': [R(lambda cfg: qsbr.q_rotation(cfg, parts=('3',))), R(qsbr.q_cas), R(lambda cfg: qsbr.q_orphans(cfg, parts=('7', '8')))],
+    'technique': 'static analysis: linearity (exactly-one-sink) dataflow on request containers, CAS-loop shape rule (published value recomputed from the expected value on every retry), type-level non-copyability check',
     'explanation': 'Exactly-once as linearity of the request containers: Q-3 no request list is overwritten while it may hold requests, the new requests are consumed into the current list; '
                    'Q-6 every CAS on the packed state word publishes helper(expected) recomputed after each failed attempt (no lost thread-count update), register increments and unregister decrements the count, paused follows (un)registration, '
                    'a push onto an orphan list links the node to the very head the CAS expects on every retry; Q-7 every orphan list taken by the epoch changer reaches exactly one sink (freed / published / appended on CAS failure), '
@@ -188,6 +219,7 @@ PROPERTIES['C11'] = {
     'level': 'other',
     'configs': one,
     'rules': [R(enc.enc1), R(lambda cfg: enc.encaff(cfg, sides=('encode',))), R(lambda cfg: enc.enc3(cfg, mode='order')), R(enc.enc4), R(enc.cmp_shape)],
+    'technique': 'static analysis: abstract interpretation of the encoder expression trees (affine x interval domain for integers, class-wise abstract walk with bit-parallel comparison for floats), width table, text-framing typestate, comparator shape',
     'explanation': 'Order preservation of the key encoder, decided from the source expressions: ENC-1/2 every fixed-size overload occupies exactly sizeof(T) bytes and multi-byte values are written big-endian (bswap of their own width, nothing else); '
                    'ENC-AFF each signed encode is EXACTLY v + 2^(w-1) on the whole domain - slope +1, no wrap, by affine x interval evaluation of the expression tree on both branches of the sign test - hence an order isomorphism onto the unsigned range (all four widths); '
                    'ENC-3 floating point by an abstract walk of encode_floating_point per class of the float domain (NaN of either sign, +inf, -inf, sign-clear finite, sign-set finite): NaN -> all ones, +inf -> max-1, -inf -> 0, finite -> bits|msb resp. ~bits, the bit transform compared as a bit-parallel function on complementary representatives (sound for the operator set & | ^ ~); '
@@ -200,6 +232,7 @@ PROPERTIES['C12'] = {
     'level': 'other',
     'configs': one,
     'rules': [R(enc.enc1), R(enc.encaff), R(lambda cfg: enc.enc3(cfg, mode='inverse')), R(enc.enc5)],
+    'technique': 'static analysis: encoder/decoder sibling agreement (overload sets, widths), affine x interval abstract interpretation of both sides (inverse biases), class-wise abstract walk of the float decoder, use-after-free typestate on the buffer pointer',
     'explanation': 'Decoding inverts encoding: ENC-1 encoder and decoder overload sets agree and every fixed-size component moves the offset by exactly sizeof(T) on both sides; ENC-2 the decoder applies the byte swap to exactly the bytes it copied out; '
                    'ENC-AFF each signed decode is exactly u - 2^(w-1), the inverse of the encode bias v + 2^(w-1) (affine x interval, whole domain, no wrap); ENC-3 the decoder maps the code classes (all ones, max-1, 0, msb set, msb clear) to canonical quiet NaN, +inf, -inf, bits^msb, ~bits - the exact inverses of the encoder classes; '
                    'ENC-5 buffer growth copies the encoded bytes before the old block is released or replaced (use-after-free typestate on the buffer pointer), releases it iff heap-allocated, reset only zeroes the offset.',
@@ -210,6 +243,7 @@ PROPERTIES['C15'] = {
     'level': 'other',
     'configs': one,
     'rules': [R(enc.enc1), R(enc.enc4), R(lambda cfg: enc.enc3(cfg, mode='order'))],
+    'technique': 'static analysis: width table of the overload set, ordering/typestate rule on text normalisation and framing, class-wise abstract walk of the float encoder (NaN unification)',
     'explanation': 'Structural generators of prefix freedom: ENC-1 every non-text component has a fixed width independent of its value (two keys of equal schema that differ in a fixed-width component differ at the same offset); '
                    'ENC-4 a text field is body.pad.runlength with the view cut to maxlen BEFORE padding is stripped (normalisation order), every trailing pad byte stripped (so texts equal after normalisation are byte-equal), reads bounded by maxlen, emission bounded by maxlen + 3; '
                    'ENC-3 every NaN, whatever its sign or payload, is mapped to one code (NaN unification), -0 and +0 stay distinct (different classes).',
@@ -221,6 +255,7 @@ PROPERTIES['C08'] = {
     'level': 'other',
     'configs': lambda tier: [B, D, extract.flip(B, 'nostats')] if tier == 'quick' else extract.all_configs(),
     'rules': [R(exc.exc1), R(exc.exc2), olc('LOCK-4'), R(mutex.mx1)],
+    'technique': 'static analysis: path-sensitive commit-point effect flow with bottom-up callee summaries (return classes, out-parameter nullness) and whole-program allocation capability; dominance rules in the factories; guard typestate',
     'explanation': 'Strong exception guarantee as a commit-point property, decided on every path instead of at the ~20 hand-counted injection points of the test suite: '
                    'EXC-1 a path-sensitive dataflow (worlds carrying "an effect has been committed" plus nullness/optional facts, so the descent and retry loops are resolved through the return classes of their helpers; callee summaries bottom-up; allocation capability from the whole-program call graph including libstdc++ bodies) '
                    'over insert/remove of db, mutex_db and olc_db for both key kinds, QSBR resume, thread start and deferred-deallocation requests shows that no allocation-capable call and no throw follows the first committed effect (store into the tree, statistics update, obsoletion, QSBR state change); writes to fresh, unpublished nodes and lock acquisition are not effects; '
@@ -234,6 +269,7 @@ PROPERTIES['C10'] = {
     'level': 'other',
     'configs': lambda tier: [B, D] if tier == 'quick' else [c for c in extract.all_configs() if '-stats-' in c],
     'rules': [R(acc.acc1), R(acc.acc2), R(acc.acc4), R(acc.own1), R(exc.exc2)],
+    'technique': 'static analysis: constant-chain and decision-expression rules on the size classes, counter who-may-write discipline, per-path create/account matching, loop-bound descriptors of subtree deletion, ownership linearity dataflow',
     'explanation': 'The local generators of "shape, statistics and memory accounting are functions of the key set", for db and olc_db, both key kinds: '
                    'ACC-1 the size-class constants form the chain 2-4 / 5-16 / 17-48 / 49-256, a node grows exactly when its count equals the capacity of ITS OWN class into the NEXT class, shrinks exactly at the minimum size of its own class into the PREVIOUS class, a two-child node collapses, splits create I4; '
                    'ACC-2 the growth / shrink counters are written only by account_growing_inode / account_shrinking_inode and only incremented, and along every non-restart path of every helper instantiation the nodes created-and-published equal the growth accounted for (class by class), a dissolved node is accounted as shrunk exactly once, key_prefix_splits moves only in the inserts; '
